@@ -3,11 +3,16 @@ package main
 import (
 	"bytes"
 	"context"
+	"crypto/sha256"
+	"encoding/hex"
 	"fmt"
+	"net/http"
 	"net/http/httptest"
 	"os"
 	"strconv"
 	"strings"
+	"sync"
+	"time"
 
 	"github.com/Query-farm/vgi-rpc-go/vgirpc"
 	"github.com/apache/arrow-go/v18/arrow"
@@ -35,6 +40,10 @@ import (
 //	    wire two = two float64 columns for a declared (int64,int64) input: the first casts, the second fails when bad
 //	    turn suffix :brk (pipe): the client goes away when this turn's handler starts, writing its output fails;
 //	    `unary pipe ... brk`: the same for a unary response
+//	    turn suffix :unenc (HTTP exchange): the handler leaves an unregistered type in the state, the next cursor
+//	    cannot be sealed; :x<kind> (pipex exchange): the input is an external-location pointer to an uploaded object
+//	    of that kind (g good, t good+cut-short tail, j good+junk, 2 two data batches, l log+data, n nested pointer
+//	    only, d data+nested pointer, s checksum mismatch); `unary httpx echo <n> 0 in=<kind>`: the REQUEST is one
 //	transports pipex / httpx / httpxacc / httpxpre / httpxpost: a server with in-memory external storage
 //	    (threshold 1 byte: every non-empty batch is uploaded); acc/pre/post = max_externalized_response_bytes
 //	    set so that the upload is accepted / refused by the pre-flight / refused only after the upload
@@ -98,7 +107,13 @@ type c41Turn struct {
 	end   string
 	bad   bool
 	brk   bool // the peer goes away when this turn's handler starts: every later write fails
+	unenc bool // the handler leaves the stream state un-serializable (an unregistered type in an interface field)
+	xin   string // "": plain input; else the kind of external object this turn's input points at
 }
+
+// c41Unregistered is deliberately never gob-registered: stored in a state's interface{} field it
+// makes the state impossible to seal into the next HTTP cursor.
+type c41Unregistered struct{ X int }
 
 // c41BreakWriter is the client's side of a pipe that can go away: once broken every Write fails
 // the way a closed pipe does.
@@ -115,14 +130,129 @@ func (w *c41BreakWriter) Write(p []byte) (int, error) {
 
 // c41Store is an in-memory external storage backend: uploads always succeed.
 type c41Store struct {
-	n     int
-	bytes int64
+	mu   sync.Mutex
+	n    int
+	objs map[string][]byte
+	base string // URL of the TLS server that serves the objects
+}
+
+func (s *c41Store) put(data []byte) string {
+	s.mu.Lock()
+	defer s.mu.Unlock()
+	s.n++
+	if s.objs == nil {
+		s.objs = map[string][]byte{}
+	}
+	key := fmt.Sprintf("/obj/%d", s.n)
+	s.objs[key] = append([]byte{}, data...)
+	return s.base + key
 }
 
 func (s *c41Store) Upload(data []byte, _ *arrow.Schema, _ string) (string, error) {
-	s.n++
-	s.bytes += int64(len(data))
-	return fmt.Sprintf("https://c41-store.invalid/obj/%d", s.n), nil
+	return s.put(data), nil
+}
+
+func (s *c41Store) ServeHTTP(w http.ResponseWriter, r *http.Request) {
+	s.mu.Lock()
+	data, ok := s.objs[r.URL.Path]
+	s.mu.Unlock()
+	if !ok {
+		http.NotFound(w, r)
+		return
+	}
+	_, _ = w.Write(data)
+}
+
+// c41ExtObject builds the object an external-location pointer refers to, and the checksum the
+// pointer carries ("" = none). kinds: g one good data batch; t good batch + a second message cut
+// short; j good batch + junk; 2 two data batches; l log batch + data batch; n only a nested
+// pointer; d data batch + nested pointer; s good object, wrong checksum on the pointer.
+// resolves reports whether resolution yields a data batch.
+func c41ExtObject(kind string, good func(i int) arrow.RecordBatch) (data []byte, sha string, resolves bool) {
+	g0, g1 := good(0), good(1)
+	defer g0.Release()
+	defer g1.Release()
+	schema := g0.Schema()
+	var buf bytes.Buffer
+	w := ipc.NewWriter(&buf, ipc.WithSchema(schema))
+	zero := func(md arrow.Metadata) arrow.RecordBatch {
+		cols := make([]arrow.Array, schema.NumFields())
+		for i, f := range schema.Fields() {
+			bl := array.NewBuilder(c41ClientMem, f.Type)
+			cols[i] = bl.NewArray()
+			bl.Release()
+		}
+		defer func() {
+			for _, c := range cols {
+				c.Release()
+			}
+		}()
+		return array.NewRecordBatchWithMetadata(schema, cols, 0, md)
+	}
+	nested := zero(arrow.NewMetadata([]string{vgirpc.MetaLocation}, []string{"https://c41-store.invalid/obj/loop"}))
+	defer nested.Release()
+	logb := zero(arrow.NewMetadata([]string{vgirpc.MetaLogLevel, vgirpc.MetaLogMessage}, []string{"INFO", "uploaded"}))
+	defer logb.Release()
+	resolves = true
+	switch kind {
+	case "g", "s":
+		_ = w.Write(g0)
+	case "2":
+		_ = w.Write(g0)
+		_ = w.Write(g1)
+	case "l":
+		_ = w.Write(logb)
+		_ = w.Write(g0)
+	case "n":
+		_ = w.Write(nested)
+		resolves = false
+	case "d":
+		_ = w.Write(g0)
+		_ = w.Write(nested)
+		resolves = false
+	case "t", "j":
+		_ = w.Write(g0)
+		mark := buf.Len()
+		_ = w.Write(g1)
+		data = append([]byte{}, buf.Bytes()[:mark]...)
+		if kind == "t" {
+			data = append(data, buf.Bytes()[mark:mark+(buf.Len()-mark)/2]...) // second message cut short
+		} else {
+			data = append(data, 0xFF, 0xFF, 0xFF, 0xFF, 0x18, 0, 0, 0, 1, 2, 3, 4, 5, 6, 7, 8, 9, 10, 11, 12, 13, 14, 15, 16, 17, 18, 19, 20, 21, 22, 23, 24)
+		}
+		return data, "", true
+	}
+	_ = w.Close()
+	data = buf.Bytes()
+	if kind == "s" {
+		return data, strings.Repeat("0", 64), false
+	}
+	if kind == "g" {
+		h := sha256.Sum256(data)
+		sha = hex.EncodeToString(h[:]) // a correct checksum is honoured
+	}
+	return data, sha, resolves
+}
+
+// c41Pointer: the zero-row pointer batch for an uploaded object.
+func c41Pointer(schema *arrow.Schema, url, sha string, extraK, extraV []string) arrow.RecordBatch {
+	cols := make([]arrow.Array, schema.NumFields())
+	for i, f := range schema.Fields() {
+		bl := array.NewBuilder(c41ClientMem, f.Type)
+		cols[i] = bl.NewArray()
+		bl.Release()
+	}
+	defer func() {
+		for _, c := range cols {
+			c.Release()
+		}
+	}()
+	keys := append([]string{vgirpc.MetaLocation}, extraK...)
+	vals := append([]string{url}, extraV...)
+	if sha != "" {
+		keys, vals = append(keys, vgirpc.MetaLocationSHA256), append(vals, sha)
+	}
+	return array.NewRecordBatchWithMetadata(schema, cols, 0, arrow.NewMetadata(keys, vals))
 }
 
 // c41Header is the header of the header-bearing producer.
@@ -140,6 +270,7 @@ var (
 	c41Idx      int
 	c41Samples  []int64
 	c41Baseline int64
+	c41TurnLimit int64 // the largest replacement input a turn of the call in flight may own
 	c41Broken   bool // the pipe's reader has gone away
 	c41ArmBreak bool // break the pipe when the (unary) handler starts
 )
@@ -165,7 +296,7 @@ func c41Sample() {
 	}
 }
 
-func c41RunTurn(out *vgirpc.OutputCollector) error {
+func c41RunTurn(out *vgirpc.OutputCollector, extra *interface{}) error {
 	c41Sample()
 	// past the scripted turns (an HTTP producer keeps being asked until it finishes) the handler
 	// finishes; on an exchange that is an error, which ends the stream as well
@@ -177,6 +308,9 @@ func c41RunTurn(out *vgirpc.OutputCollector) error {
 	c41Idx++
 	if t.brk {
 		c41Broken = true
+	}
+	if t.unenc {
+		*extra = c41Unregistered{X: i}
 	}
 	var first error
 	for j := 0; j < t.emits; j++ {
@@ -197,16 +331,16 @@ func c41RunTurn(out *vgirpc.OutputCollector) error {
 	return first
 }
 
-type c41Prod struct{}
+type c41Prod struct{ Extra interface{} }
 
-func (*c41Prod) Produce(_ context.Context, out *vgirpc.OutputCollector, _ *vgirpc.CallContext) error {
-	return c41RunTurn(out)
+func (s *c41Prod) Produce(_ context.Context, out *vgirpc.OutputCollector, _ *vgirpc.CallContext) error {
+	return c41RunTurn(out, &s.Extra)
 }
 
-type c41Xch struct{}
+type c41Xch struct{ Extra interface{} }
 
-func (*c41Xch) Exchange(_ context.Context, _ arrow.RecordBatch, out *vgirpc.OutputCollector, _ *vgirpc.CallContext) error {
-	return c41RunTurn(out)
+func (s *c41Xch) Exchange(_ context.Context, _ arrow.RecordBatch, out *vgirpc.OutputCollector, _ *vgirpc.CallContext) error {
+	return c41RunTurn(out, &s.Extra)
 }
 
 func c41Server(ext *vgirpc.ExternalLocationConfig) *vgirpc.Server {
@@ -425,6 +559,12 @@ func c41ParseTurns(s string) []c41Turn {
 				t.bad = true
 			case "brk":
 				t.brk = true
+			case "unenc":
+				t.unenc = true
+			default:
+				if strings.HasPrefix(fl, "x") && len(fl) == 2 {
+					t.xin = fl[1:]
+				}
 			}
 		}
 		out = append(out, t)
@@ -442,8 +582,28 @@ func c41Exec(c *Case) {
 	}
 	srv := c41Server(nil)
 	store := &c41Store{}
+	storeSrv := httptest.NewTLSServer(store)
+	defer storeSrv.Close()
+	store.base = storeSrv.URL
 	extCfg := vgirpc.DefaultExternalLocationConfig(store)
 	extCfg.ExternalizeThresholdBytes = 1 // every non-empty batch is uploaded
+	extCfg.HTTPClient = storeSrv.Client()
+	extCfg.RetryDelay = time.Millisecond
+	// bytes of an input batch after ResolveExternalLocation decoded it with the framework allocator
+	resolvedSize := func(good func(i int) arrow.RecordBatch) int64 {
+		return c41Measure(func() func() {
+			data, sha, _ := c41ExtObject("g", good)
+			g := good(0)
+			ptr := c41Pointer(g.Schema(), store.put(data), sha, nil, nil)
+			g.Release()
+			defer ptr.Release()
+			out, _, err := vgirpc.ResolveExternalLocation(ptr, ptr.(arrow.RecordBatchWithMetadata).Metadata(), extCfg)
+			if err != nil {
+				panic(fmt.Sprintf("c41: resolving a good external object failed: %v", err))
+			}
+			return out.Release
+		})
+	}
 	srvExt := c41Server(extCfg)
 	// an HTTP front for the external-storage server with the given max_externalized_response_bytes
 	extHTTP := func(cap int64) (*httptest.Server, func()) {
@@ -483,7 +643,7 @@ func c41Exec(c *Case) {
 		}
 		base, _ := c41Outstanding()
 		c41Baseline, c41Samples, c41Idx, c41Plan = base, nil, 0, nil
-		c41Broken, c41ArmBreak = false, false
+		c41Broken, c41ArmBreak, c41TurnLimit = false, false, 0
 		uploadsBefore := store.n
 		shmKeys := func(on bool) ([]string, []string) {
 			if !on {
@@ -533,8 +693,18 @@ func c41Exec(c *Case) {
 			if after != base {
 				c.Oracle("arrow-memory-leak", fmt.Sprintf("%q: outstanding framework allocation went from %d to %d bytes across the call", l, base, after))
 			}
+			// a turn may start with its own replacement input outstanding (cast batch, or externally
+			// resolved batch) and nothing else: more than the first turn saw, and more than one such
+			// batch, means something from an earlier turn is still there
+			limit := int64(0)
+			if len(c41Samples) > 0 {
+				limit = c41Samples[0]
+			}
+			if c41TurnLimit > limit {
+				limit = c41TurnLimit
+			}
 			for i := 1; i < len(c41Samples); i++ {
-				if c41Samples[i] > c41Samples[0] && f[0] == "stream" {
+				if c41Samples[i] > limit && f[0] == "stream" {
 					c.Oracle("arrow-memory-accumulates-across-turns", fmt.Sprintf("%q: outstanding at turn starts %v", l, c41Samples))
 					break
 				}
@@ -581,6 +751,31 @@ func c41Exec(c *Case) {
 				}
 				ml = fmt.Sprintf("unaryx %s %s r=%d w=%d", transport, mode, c41ResultSize(srv, n), wrapperSize)
 			}
+			inKind := ""
+			if len(f) > 5 && strings.HasPrefix(f[5], "in=") && transport == "httpx" && method == "echo" {
+				inKind = f[5][3:]
+			}
+			var inBody bytes.Buffer
+			if inKind != "" {
+				// the request itself is an external-location pointer: the parameters live in an
+				// uploaded object of the given kind
+				good := func(int) arrow.RecordBatch { return c41ParamsBatch(ps, n) }
+				data, sha, resolves := c41ExtObject(inKind, good)
+				keys, vals := []string{vgirpc.MetaLocation}, []string{store.put(data)}
+				if sha != "" {
+					keys, vals = append(keys, vgirpc.MetaLocationSHA256), append(vals, sha)
+				}
+				zero := c41Pointer(ps, "", "", nil, nil)
+				zp := array.NewRecordBatch(ps, zero.Columns(), 0)
+				zero.Release()
+				c41WriteRequest(&inBody, "echo", zp, keys, vals)
+				zp.Release()
+				okS := "err"
+				if resolves {
+					okS = "ok"
+				}
+				ml = fmt.Sprintf("unaryin httpx %s r=%d w=%d x=%d", okS, c41ResultSize(srv, n), wrapperSize, resolvedSize(good))
+			}
 			reqSchema := ps
 			target := method
 			if method == "badparams" {
@@ -619,14 +814,23 @@ func c41Exec(c *Case) {
 					defer closeT()
 					url = t.URL
 				}
-				cl, err := vgirpc.NewHttpClient(url)
-				if err != nil {
-					panic(err)
+				if inKind != "" {
+					resp, perr := http.Post(url+"/echo", "application/vnd.apache.arrow.stream", &inBody)
+					if perr == nil {
+						_, _ = bytes.NewBuffer(nil).ReadFrom(resp.Body)
+						resp.Body.Close()
+					}
+					c.Stat("unary-in-" + inKind)
+				} else {
+					cl, err := vgirpc.NewHttpClient(url)
+					if err != nil {
+						panic(err)
+					}
+					_, rs, _, _, _ := vgirpc.VerifC36Schemas(srv, target)
+					res, _ := cl.CallUnary(context.Background(), target, params, rs)
+					res.Release()
+					cl.Close()
 				}
-				_, rs, _, _, _ := vgirpc.VerifC36Schemas(srv, target)
-				res, _ := cl.CallUnary(context.Background(), target, params, rs)
-				res.Release()
-				cl.Close()
 			}
 			params.Release()
 			c.Stat("unary-" + transport + "-" + method)
@@ -662,6 +866,36 @@ func c41Exec(c *Case) {
 			// cannot follow an external-location answer, so an exchange ends after the first turn that
 			// is answered with data; with the pre-flight cap every emitting turn is refused (`:cap`)
 			mturns := strings.Split(f[5], ";")
+			goodIn := func(i int) arrow.RecordBatch { return c41InputBatch(inSchema, wire, i, false, nil) }
+			xSize := int64(0)
+			for i, t := range turns {
+				// what the model is told: `:unenc` only where the state is serialized (HTTP exchange),
+				// `:x<kind>` as resolves / does not resolve
+				var keep []string
+				for _, fl := range strings.Split(mturns[i], ":") {
+					switch {
+					case fl == "unenc":
+						if strings.HasPrefix(transport, "http") && kind == "xch" {
+							keep = append(keep, fl)
+						}
+					case len(fl) == 2 && fl[0] == 'x' && t.xin != "":
+						if transport == "pipex" && kind == "xch" {
+							_, _, resolves := c41ExtObject(t.xin, goodIn)
+							if resolves {
+								keep = append(keep, "xok")
+							} else {
+								keep = append(keep, "xerr")
+							}
+							if xSize == 0 {
+								xSize = resolvedSize(goodIn)
+							}
+						}
+					default:
+						keep = append(keep, fl)
+					}
+				}
+				mturns[i] = strings.Join(keep, ":")
+			}
 			var extCap int64
 			if strings.HasPrefix(transport, "httpx") {
 				oc := vgirpc.VerifC41NewCollector(c41ValueSchema, false)
@@ -687,7 +921,11 @@ func c41Exec(c *Case) {
 					}
 				}
 			}
-			ml := fmt.Sprintf("stream %s %s %s %s e=%d c=%d %s", transport, kind, wire, f[4], emitSize, c41CastSize(wire), strings.Join(mturns, ";"))
+			ml := fmt.Sprintf("stream %s %s %s %s e=%d c=%d x=%d %s", transport, kind, wire, f[4], emitSize, c41CastSize(wire), xSize, strings.Join(mturns, ";"))
+			c41TurnLimit = c41CastSize(wire)
+			if xSize > c41TurnLimit {
+				c41TurnLimit = xSize
+			}
 			params := c41ParamsBatch(ps, 1)
 			cancelMD := arrow.NewMetadata([]string{vgirpc.MetaCancel}, []string{"true"})
 			if strings.HasPrefix(transport, "pipe") {
@@ -702,7 +940,12 @@ func c41Exec(c *Case) {
 					if t.end == "cancel" {
 						md = &cancelMD
 					}
-					if kind == "xch" {
+					if kind == "xch" && t.xin != "" && transport == "pipex" && md == nil {
+						bad := t.bad
+						data, sha, _ := c41ExtObject(t.xin, func(j int) arrow.RecordBatch { return c41InputBatch(inSchema, wire, i+j, bad, nil) })
+						b = c41Pointer(inSchema, store.put(data), sha, nil, nil)
+						c.Stat("stream-in-" + t.xin)
+					} else if kind == "xch" {
 						b = c41InputBatch(inSchema, wire, i, t.bad, md)
 					} else if md != nil {
 						b = array.NewRecordBatchWithMetadata(inSchema, nil, 0, *md)
@@ -842,6 +1085,9 @@ func c41Gen(g *Gen) {
 				line := fmt.Sprintf("unary %s %s %d %d", transport, method, Pick(r, []int{0, 1, 10, 100, 700, 5000}), shm)
 				if strings.HasPrefix(transport, "pipe") && r.Chance(25) {
 					line += " brk" // the client goes away before the response is written
+				} else if transport == "httpx" && method == "echo" && r.Chance(60) {
+					// the request itself is an external-location pointer to an uploaded object
+					line += " in=" + Pick(r, []string{"g", "g", "t", "j", "2", "l", "n", "d", "s"})
 				}
 				lines = append(lines, line)
 				continue
@@ -886,6 +1132,13 @@ func c41Gen(g *Gen) {
 				}
 				if strings.HasPrefix(transport, "pipe") && r.Chance(12) {
 					ts += ":brk" // the client goes away while this turn runs: its output cannot be written
+				}
+				if kind == "xch" && strings.HasPrefix(transport, "http") && r.Chance(12) {
+					ts += ":unenc" // after this turn the state cannot be sealed into the next cursor
+				}
+				if kind == "xch" && transport == "pipex" && wire != "str" && r.Chance(45) {
+					// this turn's input is an external-location pointer
+					ts += ":x" + Pick(r, []string{"g", "g", "g", "t", "j", "2", "l", "n", "d", "s"})
 				}
 				turns = append(turns, ts)
 			}
